@@ -31,6 +31,7 @@ fn main() {
         }
     }
     std::fs::create_dir_all(&a.out).unwrap();
+    start_watchdog(if a.tier == "thorough" { 120 } else { 30 });
     let code = streams::run(&a);
     std::process::exit(code);
 }
